@@ -26,5 +26,25 @@ GNext == /\ Len(hist) < Depth
          /\ hist' = Append(hist, StepRec)
 GSpec == GInit /\ [][GNext]_<<vars, hist>>
 
+\* Exhaustive (BFS, not simulation) behaviours of the object / lookup-map subsystem: a scripted prefix builds the object
+\* {"a":7,"b":7,"k12":7} in root, then every sequence of FocusLen operations from the set below is explored: the
+\* interleavings of CreateMap / DestroyMap with additions, removals (tail and non-tail), range erasure and reservation
+\* that random walks over the whole API meet only by luck.
+Script == << [op |-> "setobj", c |-> 0],
+             [op |-> "set", c |-> -1, v |-> Uint(7)], [op |-> "addmember", c |-> 0, key |-> <<97>>, copy |-> TRUE],
+             [op |-> "set", c |-> -1, v |-> Uint(7)], [op |-> "addmember", c |-> 0, key |-> <<98>>, copy |-> TRUE],
+             [op |-> "set", c |-> -1, v |-> Uint(7)], [op |-> "addmember", c |-> 0, key |-> <<107, 49, 50>>, copy |-> TRUE] >>
+FocusOps == {"addmember", "removemember", "createmap", "destroymap", "erasemember", "memberreserve", "set"}
+FocusOk(l) == /\ l.op \in FocusOps
+              /\ l.c = (IF l.op = "set" THEN -1 ELSE 0)
+              /\ (IF l.op = "set" THEN l.v = Uint(7) ELSE TRUE)
+              /\ (IF l.op = "addmember" THEN l.copy ELSE TRUE)
+              /\ (IF l.op = "memberreserve" THEN l.n \in {0, 17} ELSE TRUE)
+FNext == /\ Len(hist) < Depth
+         /\ Next
+         /\ Constraint'
+         /\ (IF Len(hist) < Len(Script) THEN last' = Script[Len(hist) + 1] ELSE FocusOk(last'))
+         /\ hist' = Append(hist, StepRec)
+
 EmitBeh == Len(hist) = Depth => CSVWrite("%1$s", <<ToJson([steps |-> hist])>>, IOEnv.OUT)
 =============================================================================
